@@ -994,7 +994,7 @@ pub mod fastq {
             lemma_chain_bounds(bb, s);
             if bb.len() > 0 && c4(bb, s) < bb.len() { lemma_group_lift(ff, a, bb, s); }
         }
-//@at tail expect="Some\(Ok\("
+//@at tail expect="(return )?Some\(Ok\("
         proof {
             let (ff, a, bb, s) = (self.f(), self.base(), self.b(), self.buf_pos.pos.0 as int);
             lemma_complete_facts(bb, self.buf_pos);
